@@ -106,6 +106,13 @@ def Sig.WellFormed (s : Sig) : Prop := s.names.Nodup
 
 instance (s : Sig) : Decidable s.WellFormed := by unfold Sig.WellFormed; infer_instance
 
+/-- `s` extends the documented table `ref`: the same parameters in the same order with the same
+    defaults first, then only parameters that have a default; `**kwargs` as documented -/
+def Sig.Extends (s ref : Sig) : Bool :=
+  s.params.take ref.params.length == ref.params
+  && (s.params.drop ref.params.length).all (fun p => !p.required)
+  && s.varkw == ref.varkw
+
 /-! ## histories -/
 
 /-- a call of one of the five functions, by the content of its arguments -/
